@@ -52,7 +52,7 @@ def build_harness():
 def run_translator():
     """regenerate coq/Gen_*.v from /repo sources; files are only rewritten when they change."""
     with Lock("coq"):
-        rc, out = sh([BIN, "gen", "-repo", REPO, "-out", COQ], timeout=300)
+        rc, out = sh([BIN, "gen", "-repo", REPO, "-out", COQ], timeout=300, env=dict(GOENV, VERIF_ROOT=ROOT, VERIF_REPO=REPO))
     return rc, out
 
 def coq_files():
@@ -220,6 +220,24 @@ def main(argv):
         if rc != 0:
             log(out); log("ERROR: translator failed"); return 2
         gen_note = out.strip()
+    # C11: regenerated index obligations — unprovable ones are taken out (and reported below)
+    ob_failing, ob_total, ob_pinned = [], 0, []
+    if pid == "C11":
+        import c11
+        with Lock("coq"):
+            failing_ids, err = c11.prove_obligations(COQ)
+        if err:
+            log(err); log("ERROR: Gen_C11.v could not be processed"); return 2
+        meta_obs = {o["id"]: o for o in json.load(open(os.path.join(ROOT, "run", "c11_obligations.json")))}
+        pins = json.load(open(os.path.join(ROOT, "lib", "c11_pins.json")))["pins"]
+        pinset = {(p["file"], p["func"], p["func_hash"], p["expr"]) for p in pins}
+        ob_total = len(meta_obs)
+        for fid in failing_ids:
+            o = meta_obs[fid]
+            if (o["file"], o["func"], o["func_hash"], o["expr"]) in pinset:
+                ob_pinned.append(o)
+            else:
+                ob_failing.append(o)
     props_file = spec["props"] + ".v"
     rc, mk_out, mk_cmd = make_target(spec["props"] + ".vo")
     proof_ok = (rc == 0)
@@ -250,8 +268,10 @@ def main(argv):
             axn = [l.split(":")[0].strip() for l in ax]
             if not lines or any(a not in ALLOWED_AXIOMS for a in axn):
                 bad_assum.append("%s: %s" % (n, " | ".join(lines) or "no output"))
-    obligations = len(names) + int(spec.get("extra_obligations", 0))
+    obligations = len(names) + int(spec.get("extra_obligations", 0)) + ob_total
     discharged = obligations if (proof_ok and not forb and not bad_assum) else 0
+    if discharged:
+        discharged -= len(ob_failing)
 
     # 2b. the Go-stdlib models used by this property's model are re-validated against Go
     lib_cases = 0
@@ -314,6 +334,21 @@ def main(argv):
             continue
         path = write_replay("%s_%s.json" % (pid, re.sub(r"[^A-Za-z0-9_.-]+", "_", sig)), payload)
         violations.append({"line": "VIOLATION property=%s replay=%s" % (pid, path), "sig": sig})
+    # C11: an index obligation that no longer proves — look for a panicking configuration of that
+    # directive among this run's cases; if none, the obligation itself is the (unlocated) violation
+    for o in ob_failing:
+        ddir = os.path.dirname(o["file"])
+        hit = [g for g in groups if g[1].startswith("conf:") and ":panic:" in g[1] and
+               any(k for k, v in {"tls": "caskettls", "on": "onevent"}.items() if v == ddir and g[1].startswith("conf:%s:" % k))
+               or (g[1].startswith("conf:") and ":panic:" in g[1] and ("caskethttp/" + g[1].split(":")[1]) == ddir)]
+        if hit:
+            notes.append("obligation %s (%s:%d %s) unprovable; a panicking configuration of that directive was found (%s)" % (o["id"], o["file"], o["line"], o["expr"], hit[0][1]))
+            continue
+        payload = {"property": pid, "kind": "proof obligation no longer checks",
+                   "no_longer_checks": "index obligation %s in coq/Gen_C11.v: %s:%d in %s: `%s` is not shown to be within bounds by the guards in scope" % (o["id"], o["file"], o["line"], o["func"], o["expr"]),
+                   "lemma": o["lemma"]}
+        path = write_replay("%s_%s.json" % (pid, o["id"]), payload)
+        violations.append({"line": "VIOLATION property=%s replay=%s no-failing-input-found" % (pid, path), "sig": o["id"]})
     if mismatch and not violations:
         # correspondence broken but the implementation satisfied the spec oracle everywhere
         idxs = [i for i, _ in mismatch]
@@ -361,6 +396,8 @@ def main(argv):
             "input_distribution": meta.get("histogram", {}),
             "known_findings_seen": [{"sig": s, "count": n} for s, _, n in known_hits],
             "translator": gen_note, "notes": notes,
+            "index_obligations": {"total": ob_total, "unprovable": [o["id"] for o in ob_failing],
+                                  "pinned": [{"id": o["id"], "site": "%s:%d %s" % (o["file"], o["line"], o["expr"])} for o in ob_pinned]},
             "replay_mode": bool(replay),
         },
         "assumptions": spec.get("assumptions", []),
